@@ -35,7 +35,7 @@ type c09Gauge struct {
 
 func runC09(c *vk.Ctx) {
 	c.R.Rule = "cases = histories with 4 lock owners (several locks each with distinct durations and distinct reward receivers, 2 lock denoms), gauges perpetual / 1..6 epochs with start times past / now / up to 2 epochs ahead, reward denoms uosmo, a denom with a registered price route and the same denom after the route is removed, amounts 1..1e24 incl. <=100, minimum distribution value 1 / 1e4 / 1e9 uosmo; between epochs add-to-gauge, new locks, top-ups, begin-unlock, receiver changes; 3-12 epochs. Immediately before every epoch block the gauges and qualifying locks are read through the keepers' queries, the expected payment per receiver is computed in big.Int (floor of the pro-rata share of remaining/remaining-epochs, minimum-value and no-route filters), the real epoch block runs, and receiver balance deltas, gauge filled/distributed counters, active/finished status, Σ distributed <= Σ deposited and the module balance are compared. distinct_nontrivial counts distinct (#active lock gauges bucket, #qualifying locks bucket, any receiver != owner?, any skipped-by-minimum?, any gauge finishing?, any gauge without locks?) tuples per epoch."
-	nHist := c.N(960, 24000)
+	nHist := c.N(960, 12000)
 	lockDenoms := []string{"lpa", "lpb"}
 	c.Cases("history", nHist, func(i int, r *vk.Rng) {
 		epochDur := time.Hour
